@@ -473,7 +473,7 @@ class Oracle:
         if f in ("MIN", "MAX", "ARGMIN", "ARGMAX"):
             lo = f in ("MIN", "ARGMIN")
             best = min(p.v for p in vals) if lo else max(p.v for p in vals)
-            if "sentinel" in self.quirks and (best > 1e300 if lo else best < -1e300):
+            if "sentinel" in self.quirks and (best >= 1e300 if lo else best <= -1e300):
                 return ANYV
             if f in ("MIN", "MAX"):
                 return V(best, max(p.err for p in vals))
